@@ -264,6 +264,44 @@ def check(case):
         gen.set_net(state.rbm_am, case["state"]["am"])
         if case["state"].get("ph"):
             gen.set_net(state.rbm_ph, case["state"]["ph"])
+    if not r.get("excluded") and case["split"] % 2 == 0:
+        # after an exception + long time axis: gradient calls that are refused (unknown basis letter, samples of the wrong width, bases that do
+        # not match the samples; caught as a caller would), then gradients for 36 DIFFERENT bases arrays / batches on this one object, then the
+        # data set of the first round again: every quantity must be what it was
+        n_, t_ = case["state"]["n"], case["state"]["type"]
+        sp_ = state.generate_hilbert_space()
+        smp_ = sp_[: min(3, sp_.shape[0])].clone()
+        bad_calls = [lambda: state.gradient(torch.zeros(2, n_ + 1, dtype=torch.double), **({} if t_ == "positive" else {"bases": np.array([["Z"] * (n_ + 1)] * 2)})),
+                     lambda: state.positive_phase_gradients(torch.zeros(3, n_ + 2, dtype=torch.double), **({} if t_ == "positive" else {"bases_batch": np.array([["Z"] * (n_ + 2)] * 3)}))]
+        if t_ != "positive":
+            bad_calls += [lambda: state.positive_phase_gradients(smp_.clone(), bases_batch=np.array([["Q"] * n_] * smp_.shape[0])),
+                          lambda: state.gradient(smp_.clone(), bases=np.array([["Q"] + ["Z"] * (n_ - 1)] * smp_.shape[0])),
+                          lambda: state.compute_exact_gradients(smp_.clone(), sp_, bases_batch=np.array([["X"] * n_] * (smp_.shape[0] + 2))),
+                          lambda: state.gradient(smp_[0].clone(), bases=["Q"] * n_)]
+        G_ = {} if t_ == "positive" else {"bases": np.array([["Z"] * n_] * smp_.shape[0])}
+        g_before = [g_.clone() if isinstance(g_, torch.Tensor) else g_ for g_ in state.gradient(smp_.clone(), **G_)]
+        for f_ in bad_calls:
+            try:
+                f_()
+            except Exception:
+                pass
+            g_after = state.gradient(smp_.clone(), **G_)          # a direct gradient() call right after each refused call: same inputs, same parameters
+            for a_, b_ in zip(g_before, g_after):
+                ok_ = bool(torch.all((a_ - b_).abs() <= 1e-12 * (1 + a_.abs()))) if isinstance(a_, torch.Tensor) else a_ == b_
+                require(ok_, "after-refused-call:gradient-changed", "gradient(samples, bases) of the same samples and parameters differs after a refused gradient call (caught) on the same object")
+        for i_ in range(36):
+            rows_i = [(i_ * 7 + j_) % sp_.shape[0] for j_ in range(3)]
+            if t_ == "positive":
+                state.positive_phase_gradients(sp_[rows_i].clone())
+            else:
+                b_i = np.array([["XYZ"[((i_ + 1) * (j_ + 2) // (3 ** s_)) % 3] for s_ in range(n_)] for j_ in range(3)])
+                state.positive_phase_gradients(sp_[rows_i].clone(), bases_batch=b_i)
+                if i_ % 6 == 0:
+                    state.gradient(sp_[rows_i].clone(), bases=b_i)
+        try:
+            check_round(case, state)
+        except PropertyViolation as v:
+            raise PropertyViolation("after-refused-calls-and-many-batches:" + v.bucket, "after refused gradient calls (caught) and gradients for 36 other bases arrays on the same object: " + v.message, v.detail)
     if case["state"].get("unitaries2"):
         # history: the state loads a file written by a twin with the same parameters but OTHER user unitaries for the same letters;
         # from then on gradients in rotated bases must follow the loaded dictionary
